@@ -63,11 +63,12 @@ type params struct {
 	intensity  int
 	jitter     [2]int // reader pause class
 	lenProfile int
+	pace       int // writer pacing class
 	phases     []phase
 }
 
 func (p *params) class() string {
-	return fmt.Sprintf("W=%d/%d thr=%d/%d %s %s cap=%d/%d pert=%d", p.W[0], p.W[1], p.thr[0], p.thr[1], p.cipher, p.kex, p.capacity[0], p.capacity[1], p.intensity)
+	return fmt.Sprintf("W=%d/%d thr=%d/%d %s %s cap=%d/%d pert=%d pace=%d", p.W[0], p.W[1], p.thr[0], p.thr[1], p.cipher, p.kex, p.capacity[0], p.capacity[1], p.intensity, p.pace)
 }
 
 // ---- shared state -------------------------------------------------------------
@@ -115,6 +116,7 @@ type sideState struct {
 	ovfConfirmed       atomic.Int64
 	ovfGaveUp          atomic.Int64
 	recvApp            atomic.Int64
+	lowSeen            atomic.Int64
 	finSeen            atomic.Bool
 	writersLeft        atomic.Int32
 	readerDone         atomic.Bool
@@ -129,7 +131,8 @@ type conn struct {
 	seed uint64
 	log  evlog
 	s    [2]sideState
-	nt   notifier
+	nt   notifier // progress of the connection (controller and tap holds wait here)
+	bnt  notifier // ticket budget changes (writers wait here)
 
 	stop         atomic.Bool
 	closing      atomic.Bool
@@ -137,12 +140,16 @@ type conn struct {
 	abortOnce    sync.Once
 	simulArm     atomic.Bool
 	simulForced  atomic.Int64
+	simulSeen    atomic.Int64
+	spMu         sync.Mutex
+	spont        map[int64]uint8
 	holdsEngaged atomic.Int32
 	failed       atomic.Bool
 	errMu        sync.Mutex
 	errs         []string
 	dumps        atomic.Int64
 	requests     atomic.Int64
+	nudges       atomic.Int64
 }
 
 func (c *conn) fail(what string, err error) {
@@ -154,6 +161,26 @@ func (c *conn) fail(what string, err error) {
 	c.errMu.Unlock()
 	c.failed.Store(true)
 	c.nt.note()
+}
+
+// markSpontaneous records that side sent KEXINIT number k unprompted; when
+// both sides did, the round is a simultaneous one.
+func (c *conn) markSpontaneous(side int, k int64) {
+	c.spMu.Lock()
+	if c.spont == nil {
+		c.spont = map[int64]uint8{}
+	}
+	c.spont[k] |= 1 << side
+	both := c.spont[k] == 3
+	if both {
+		delete(c.spont, k)
+	}
+	delete(c.spont, k-2)
+	c.spMu.Unlock()
+	if both {
+		c.simulSeen.Add(1)
+		c.nt.note()
+	}
 }
 
 func (c *conn) releaseHolds() {
@@ -290,6 +317,10 @@ func (c *conn) tap(side int) *ssh.VerifTap {
 						c.simulForced.Add(1)
 					}
 				}
+				if ss.kiW.Load() >= k {
+					// this side sent its KEXINIT of round k before it saw the peer's
+					c.markSpontaneous(side, k)
+				}
 			case typ == msgNewKeys:
 				ss.nkR.Add(1)
 			case typ >= 50:
@@ -311,6 +342,8 @@ func (c *conn) tap(side int) *ssh.VerifTap {
 		},
 	}
 }
+
+var debugHold = true
 
 var writerFn = [2]string{"writerLoopC", "writerLoopS"}
 
@@ -367,6 +400,10 @@ func (c *conn) ovfHold(side int, point uint32) {
 		ss.ovfConfirmed.Add(1)
 	} else {
 		ss.ovfGaveUp.Add(1)
+		if debugHold {
+			fmt.Printf("DEBUG gave up: side=%d point=%d ok=%v retOK=%d pushed=%d started=%d returned=%d stop=%v closing=%v\n%s\n", side, point, ok,
+				ss.retOK.Load(), ss.pushedApp.Load(), ss.started.Load(), ss.returned.Load(), c.stop.Load(), c.closing.Load(), mon.GoroutineDump())
+		}
 	}
 	ss.ovfDone.Add(1)
 	c.nt.note()
@@ -423,12 +460,12 @@ func (c *conn) writerLoop(side, w int, r *rand.Rand) {
 				}
 				continue
 			}
-			c.nt.waiters.Add(1)
-			ch := c.nt.get()
+			c.bnt.waiters.Add(1)
+			ch := c.bnt.get()
 			if !c.stop.Load() && ss.issued.Load() >= ss.budget.Load() {
 				<-ch
 			}
-			c.nt.waiters.Add(-1)
+			c.bnt.waiters.Add(-1)
 		}
 		n := pktLen(r, c.p.lenProfile)
 		p := buildApp(buf, n, appTypes[r.IntN(len(appTypes))], side, w, ctr)
@@ -445,11 +482,22 @@ func (c *conn) writerLoop(side, w int, r *rand.Rand) {
 			c.fail(fmt.Sprintf("%s writer WritePacket", sideName[side]), err)
 			return
 		}
-		switch v := r.IntN(64); {
-		case v < 12:
+		switch c.p.pace {
+		case 0: // tight loop
+			if r.IntN(8) == 0 {
+				runtime.Gosched()
+			}
+		case 1:
 			runtime.Gosched()
-		case v == 63 && c.p.intensity >= 2:
-			time.Sleep(time.Duration(1+r.IntN(60)) * time.Microsecond)
+			if r.IntN(64) == 0 {
+				time.Sleep(time.Duration(1+r.IntN(60)) * time.Microsecond)
+			}
+		default: // slow writers: the pending queue rarely fills by itself
+			if r.IntN(3) == 0 {
+				time.Sleep(time.Duration(1+r.IntN(150)) * time.Microsecond)
+			} else {
+				runtime.Gosched()
+			}
 		}
 	}
 }
@@ -470,6 +518,12 @@ func (c *conn) readerLoop(side int, r *rand.Rand) {
 			return
 		}
 		if len(p) == 0 {
+			continue
+		}
+		if p[0] < 50 {
+			// transport-layer message passed up by handshakeTransport
+			// (EXT_INFO after the first NEWKEYS): not application traffic
+			ss.lowSeen.Add(1)
 			continue
 		}
 		if p[0] == typFIN {
@@ -517,11 +571,25 @@ var (
 //   - true:  pred holds
 //   - false: abandon the case (h != nil: a writer is blocked forever; inconclusive != "": undecidable)
 func (c *conn) await(what string, pred func() bool) (ok bool, h *hang, frozen bool, inconclusive string) {
+	return c.awaitNudging(what, 0, pred)
+}
+
+// awaitNudging is await that, while waiting, keeps asking side(s) `who` for a
+// key exchange: a request that lands in the tail of the previous exchange is
+// discarded by kexLoop, so one request is not enough to force a round.
+func (c *conn) awaitNudging(what string, who int, pred func() bool) (ok bool, h *hang, frozen bool, inconclusive string) {
 	c.nt.waiters.Add(1)
 	defer c.nt.waiters.Add(-1)
 	looks := 0
 	t := time.NewTimer(lookEvery)
 	defer t.Stop()
+	var tick <-chan time.Time
+	if who != 0 {
+		tk := time.NewTicker(400 * time.Microsecond)
+		defer tk.Stop()
+		tick = tk.C
+		c.request(who)
+	}
 	lastClock := c.log.clock.Load()
 	for {
 		ch := c.nt.get()
@@ -533,6 +601,9 @@ func (c *conn) await(what string, pred func() bool) (ok bool, h *hang, frozen bo
 		}
 		select {
 		case <-ch:
+			continue
+		case <-tick:
+			c.requestQuietly(who)
 			continue
 		case <-t.C:
 		}
@@ -691,10 +762,20 @@ func (c *conn) request(who int) {
 	}
 }
 
+// requestQuietly is request without a log entry (repeated nudges).
+func (c *conn) requestQuietly(who int) {
+	for s := 0; s < 2; s++ {
+		if who&(1<<s) != 0 {
+			c.nudges.Add(1)
+			c.s[s].raw.Load().RequestKeyExchange()
+		}
+	}
+}
+
 func (c *conn) addBudget(side, n int) {
 	ss := &c.s[side]
 	ss.budget.Store(ss.issued.Load() + int64(n))
-	c.nt.note()
+	c.bnt.note()
 }
 
 func (c *conn) drained() bool {
@@ -705,26 +786,6 @@ func (c *conn) drained() bool {
 		}
 	}
 	return true
-}
-
-// nudge keeps asking `who` for a key exchange (a request that lands in the
-// tail of the previous exchange is discarded by kexLoop) until pred holds;
-// bounded, after which it parks in await.
-func (c *conn) nudge(who int, pred func() bool) {
-	for i := 0; i < 400 && !pred() && !c.failed.Load(); i++ {
-		c.request(who)
-		c.nt.waiters.Add(1)
-		ch := c.nt.get()
-		if !pred() {
-			t := time.NewTimer(300 * time.Microsecond)
-			select {
-			case <-ch:
-			case <-t.C:
-			}
-			t.Stop()
-		}
-		c.nt.waiters.Add(-1)
-	}
 }
 
 func runConn(p *params, seed uint64, r *rand.Rand) *outcome {
@@ -840,24 +901,23 @@ func runConn(p *params, seed uint64, r *rand.Rand) *outcome {
 				c.addBudget(sideS, ph.n)
 				k0 := [2]int64{c.s[0].nkR.Load(), c.s[1].nkR.Load()}
 				done := func() bool { return c.s[0].nkR.Load() > k0[0] && c.s[1].nkR.Load() > k0[1] }
+				nudgeWho := ph.who
 				if ph.post {
 					// nothing has asked for a key exchange since the initial one
 					// completed: a single request cannot be lost
 					c.request(ph.who)
-				} else {
-					c.nudge(ph.who, done)
+					nudgeWho = 0
 				}
-				if abandon(c.await("requested key exchange to complete", done)) {
+				if abandon(c.awaitNudging("requested key exchange to complete", nudgeWho, done)) {
 					return
 				}
 			case phSimul:
-				base := c.simulForced.Load()
+				base := c.simulSeen.Load()
 				c.simulArm.Store(true)
 				c.addBudget(sideC, ph.n)
 				c.addBudget(sideS, ph.n)
-				done := func() bool { return c.simulForced.Load() > base }
-				c.nudge(ph.who, done)
-				ok, h, fr, inc := c.await("forced simultaneous KEXINIT", done)
+				done := func() bool { return c.simulSeen.Load() > base }
+				ok, h, fr, inc := c.awaitNudging("forced simultaneous KEXINIT", ph.who, done)
 				c.simulArm.Store(false)
 				if abandon(ok, h, fr, inc) {
 					return
@@ -875,7 +935,7 @@ func runConn(p *params, seed uint64, r *rand.Rand) *outcome {
 					}
 				}
 				c.simulArm.Store(ph.simul)
-				c.nt.note()
+				c.bnt.note()
 				done := func() bool {
 					for s := 0; s < 2; s++ {
 						if ph.sides&(1<<s) != 0 && c.s[s].ovfDone.Load() == base[s] {
@@ -884,8 +944,7 @@ func runConn(p *params, seed uint64, r *rand.Rand) *outcome {
 					}
 					return true
 				}
-				c.nudge(ph.who, done)
-				ok, h, fr, inc := c.await("forced pending-queue overflow", done)
+				ok, h, fr, inc := c.awaitNudging("forced pending-queue overflow", ph.who, done)
 				c.simulArm.Store(false)
 				for s := 0; s < 2; s++ {
 					if ph.sides&(1<<s) != 0 {
@@ -903,7 +962,7 @@ func runConn(p *params, seed uint64, r *rand.Rand) *outcome {
 		}
 		// end of the script: stop the writers, send the end markers, wait for delivery
 		c.stop.Store(true)
-		c.nt.note()
+		c.bnt.note()
 		if abandon(c.await("writers to exit", func() bool {
 			return c.s[0].writersLeft.Load() == 0 && c.s[1].writersLeft.Load() == 0
 		})) {
@@ -933,6 +992,7 @@ func runConn(p *params, seed uint64, r *rand.Rand) *outcome {
 	c.stop.Store(true)
 	c.releaseHolds()
 	c.nt.note()
+	c.bnt.note()
 	for s := 0; s < 2; s++ {
 		s := s
 		go func() {
